@@ -447,6 +447,7 @@ from ..variants import V  # noqa: E402
 
 _G = 'src/emsarray/operations/geometry.py'
 VARIANTS = [
+    V('C15', 'given-projection-path-overwritten', 'src/emsarray/operations/geometry.py', "        if prj is None:\n            if target is not None:", "        if prj is not None:\n            if target is not None:", 'R15.4'),
     V('C15', 'projection-file-named-after-no-target', 'src/emsarray/operations/geometry.py', "            if target is not None:\n                prj = os.path.splitext(target)[0] + '.prj'", "            if target is None:\n                prj = os.path.splitext(target)[0] + '.prj'", 'R15.4'),
     V('C15', 'geojson-wind-off-by-one', _G, "            'index': dataset.ems.wind_index(i),\n        })", "            'index': dataset.ems.wind_index(i + 1),\n        })", 'R15.2'),
     V('C15', 'geojson-compacted', _G, "        for i, polygon in enumerate(dataset.ems.polygons)\n        if polygon is not None\n    ))", "        for i, polygon in enumerate(dataset.ems.polygons[dataset.ems.mask])\n        if polygon is not None\n    ))", 'R15.1'),
